@@ -174,6 +174,8 @@ FuncClauses(o, e, cpp) ==
 
 EnumClauses(o, e) == If(o.name = e.name /\ o.enumerators = e.enumerators, "C10:" \o e.name \o ":enumerators-numbered-in-declared-order")
 
+FixedIncludes == {"#include <gtwrap/matlab.h>", "#include <map>", "#include <boost/archive/text_iarchive.hpp>",
+                  "#include <boost/archive/text_oarchive.hpp>", "#include <boost/serialization/export.hpp>"}
 \* ---------------------------------------------------------------- the whole toolbox
 Clauses(ob) ==
   LET classes == Classes(ob.inst, ob.opts.ignore, ob.opts.ser)
@@ -198,6 +200,9 @@ Clauses(ob) ==
            "C10:collectors-differ-from-classes")
      \o If(ob.cpp.delete_loops = pre.delete_loops, "C10:unload-does-not-free-every-collector")
      \o If([i \in 1..Len(ob.cpp.rtti) |-> [cpp |-> ob.cpp.rtti[i].cpp, name |-> ob.cpp.rtti[i].name]] = pre.rtti, "C10:rtti-entries-differ-from-virtual-classes")
+     \o If([i \in 1..Len(ob.cpp.export_guids) |-> [cpp |-> ob.cpp.export_guids[i].cpp, name |-> ob.cpp.export_guids[i].name]]
+           = (IF ob.opts.ser THEN pre.guids ELSE <<>>), "C10:serialization-export-guids")
+     \o If(SameBag(SelectSeq(ob.cpp.includes, LAMBDA l : l \notin FixedIncludes), AllIncludes(ob.inst)), "C10:includes-differ-from-declared")
      \o If([i \in 1..Len(ob.cpp.typedefs) |-> [target |-> ob.cpp.typedefs[i].target, alias |-> ob.cpp.typedefs[i].alias]] = pre.typedefs,
            "C10:typedefs-of-instantiations")
 
